@@ -7,12 +7,12 @@ git checkout -q -- . 2>/dev/null
 mkdir -p $CRATE/tests; cp $O/demo.rs $CRATE/tests/seeddemo_$V.rs
 rm -f $CRATE/tests/demo_*.rs
 echo "== clean tree: demo must pass"
-cargo test -p $CRATE --offline --test seeddemo_$V 2>&1 | grep -E "^test result|error(\[|:)" | head -3
+RUSTFLAGS="${SEED_RUSTFLAGS:-}" cargo test -p $CRATE --offline --test seeddemo_$V 2>&1 | grep -E "^test result|error(\[|:)" | head -3
 git apply $O/patch.diff || { echo "PATCH DOES NOT APPLY"; exit 8; }
 echo "== patched: existing suite must pass"
 cargo test --workspace --offline --lib 2>&1 | grep -E "^test result" | sort | uniq -c
 echo "== patched: demo must fail"
-cargo test -p $CRATE --offline --test seeddemo_$V 2>&1 | grep -E "^test result|error(\[|:)" | head -3
+RUSTFLAGS="${SEED_RUSTFLAGS:-}" cargo test -p $CRATE --offline --test seeddemo_$V 2>&1 | grep -E "^test result|error(\[|:)" | head -3
 git checkout -q -- .; rm -f $CRATE/tests/seeddemo_$V.rs
 echo "== /repo + patch: ./check $P"
 cd /repo && git apply $O/patch.diff && (cd /verif && ./check $P; echo "rc=$?"); git -C /repo checkout -q -- .
